@@ -199,6 +199,7 @@ type x05Env struct {
 	carKey    map[string]string // real suffix -> model key
 	repBody   map[string]string // rep -> sha256 of the body
 	repEtag   map[string]string // rep -> real ETag
+	onLearn   func(q x05Q, o x05Obs, salt int) // record mode: the client's preparatory GETs are part of the session
 }
 
 func x05ContentID(kind string, ver int) string {
@@ -751,6 +752,9 @@ func (e *x05Env) diff(q x05Q, want x05R, o x05Obs) []string {
 // learn the validator / Last-Modified a client holds: unconditional GET of the same request
 func (e *x05Env) learn(q x05Q, salt int) (etag, lm string) {
 	o := e.send(q, "GET", "", "", salt)
+	if e.onLearn != nil {
+		e.onLearn(q, o, salt)
+	}
 	if o.St != http.StatusOK { // a client stores validators of successful responses only
 		return "", ""
 	}
@@ -1149,6 +1153,25 @@ func x05Record(t *testing.T) {
 		n = 6000
 	}
 	store := map[string]map[string]bool{} // URL (with query) -> validators the client stored
+	remember := func(q x05Q, o x05Obs) string {
+		u := fmt.Sprintf("%v%v:", q.Conv, q.Deser) + e.urlPath(q) // one origin per gateway configuration
+		if qs := x05Query(q); qs != "" {
+			u += "?" + qs
+		}
+		if o.St == 200 && q.Meth == "GET" && o.H.Get("Etag") != "" {
+			if store[u] == nil {
+				store[u] = map[string]bool{}
+			}
+			store[u][o.H.Get("Etag")] = true
+		}
+		return u
+	}
+	e.onLearn = func(q x05Q, o x05Obs, salt int) {
+		q.Meth, q.Inm, q.Ims = "GET", "", ""
+		u := remember(q, o)
+		vEmit(M{"ev": "Req", "q": q, "tags": []x05Et{}, "star": false, "o": e.project(q, o),
+			"sent": M{"url": u, "accept": x05Accept(q, salt), "inm": "", "ims": ""}})
+	}
 	for it := 0; it < n; it++ {
 		if r.Intn(25) == 0 {
 			name := x05Pick(r, "ttl", "nottl", "lm")
@@ -1222,7 +1245,7 @@ func x05Record(t *testing.T) {
 		}
 
 		// conditional headers
-		u := e.urlPath(q)
+		u := fmt.Sprintf("%v%v:", q.Conv, q.Deser) + e.urlPath(q)
 		if qs := x05Query(q); qs != "" {
 			u += "?" + qs
 		}
@@ -1252,8 +1275,10 @@ func x05Record(t *testing.T) {
 			q2.Inm = x05Pick(r, "cid", "rawf", "dir", "dag", "cur", "curw", "list")
 			inm = e.renderInm(q2, it)
 		}
-		if star && (f == "" || f == "json" || f == "cbor") {
-			inm, star = "", false // not claimed, see StarUnclaimed
+		if star && f != "raw" && f != "car" && f != "ipns-record" {
+			// not claimed: "*" where the gateway answers before it knows whether / which representation it can
+			// produce (see StarUnclaimed; RFC 9110 13.2.1 wants preconditions ignored when the plain response is not 2xx)
+			inm, star = "", false
 		}
 		if inm != "" {
 			q.Inm = "hdr"
@@ -1275,12 +1300,7 @@ func x05Record(t *testing.T) {
 			}
 		}
 		o := e.send(q, q.Meth, inm, ims, it)
-		if o.St == 200 && q.Meth == "GET" && o.H.Get("Etag") != "" {
-			if store[u] == nil {
-				store[u] = map[string]bool{}
-			}
-			store[u][o.H.Get("Etag")] = true
-		}
+		remember(q, o)
 		vEmit(M{"ev": "Req", "q": q, "tags": tags, "star": star, "o": e.project(q, o),
 			"sent": M{"url": u, "accept": x05Accept(q, it), "inm": inm, "ims": ims}})
 	}
